@@ -24,6 +24,7 @@
  R7 span walk     : prev/next_node_generator continue over exactly the (Fused, Fused|fibre) / (Fused|fibre, Fused) class pairs
                     (truth table of the isinstance condition over the element classes), mirror images; find_first/last_node.
  Ru units         : lengths configured with a unit entry are only used through convert_length(value, same record's length_units).
+ Rv verbose       : blocks guarded by the verbose flag only report; the design does not depend on the logging flag.
 """
 import ast
 
@@ -481,6 +482,16 @@ def ru_units(ctx):
     ctx.need('Ru.units', 1)
 
 
+def rv_verbose(ctx):
+    """Rv: blocks guarded by the `verbose` flag only report (no value read after the block, no object state written, no exit):
+    the design does not depend on the logging flag"""
+    from .common import verbose_rule
+    from ..memo import scope_funcs
+    verbose_rule(ctx, 'Rv.verbose-pure', list(ctx.repo.module(NW).functions.values()),
+                 'the designed network would depend on the logging flag (auto-design could fail or differ with verbose off)')
+    ctx.need('Rv.verbose-pure', 5)
+
+
 from ..memo import rule_for as _memo_rule
 
 RULES_MEMO = ('Rm.memo', _memo_rule('C08', 'a structural decision taken for another element would be reused'))
@@ -491,4 +502,4 @@ from ..presence import rule_for as _presence_rule
 RULES_PRESENCE = ('Rp.presence', _presence_rule('C08', 'a legal zero would be read as missing'))
 
 RULES = [('R1.surgery', r1_surgery), ('R2.edge-weight', r2_weights), ('R3.completeness', r3_completeness), ('R4.split', r4_split),
-         ('R5.order', r5_order), ('R6.every-oms', r6_every_oms), RULES_MEMO, RULES_PRESENCE, ('R7.span-walk', r7_span_walk), ('Ru.units', ru_units)]
+         ('R5.order', r5_order), ('R6.every-oms', r6_every_oms), RULES_MEMO, RULES_PRESENCE, ('R7.span-walk', r7_span_walk), ('Ru.units', ru_units), ('Rv.verbose-pure', rv_verbose)]
